@@ -35,6 +35,45 @@ Theorem C12_too_short : forall uid fields sc n idx t vol,
 Proof. exact get_field_too_short. Qed.
 Print Assumptions C12_too_short.
 
+(* tied to the compiler (Runtime/SlotReads.v): in a scope that satisfies the compiler's scope
+   invariant, two different names that both read successfully read two different positions of the
+   report — a lookup never returns the value of another variable's slot — and a report with as
+   many values as the program has report variables always has the slot.  The invariant holds for
+   the scope of every compiled program of the typed fragment (C01's quantifier). *)
+From Portus Require Import ScopeInv C01Final SlotReads.
+
+Theorem C12_distinct_names_read_distinct_positions : forall sc uid fields x y vx vy,
+  sinv sc -> x <> y ->
+  get_field uid fields uid (sc_named sc) x = GfOk vx ->
+  get_field uid fields uid (sc_named sc) y = GfOk vy ->
+  exists ix iy, ix <> iy /\ nth_error fields (N.to_nat ix) = Some vx /\ nth_error fields (N.to_nat iy) = Some vy.
+Proof. exact distinct_names_read_distinct_positions. Qed.
+Print Assumptions C12_distinct_names_read_distinct_positions.
+
+Theorem C12_full_report_has_every_slot : forall sc uid fields x,
+  sinv sc -> N.of_nat (length fields) = sc_nperm sc ->
+  forall i t v, sc_get (sc_named sc) x = Some (Report i t v) ->
+  exists w, get_field uid fields uid (sc_named sc) x = GfOk w /\ nth_error fields (N.to_nat i) = Some w.
+Proof. exact full_report_has_every_slot. Qed.
+Print Assumptions C12_full_report_has_every_slot.
+
+Theorem C12_compiled_scopes_satisfy_the_invariant :
+  forall (reports controls : list (bool * name * ty)) (sc1 sc0 scF : scope) (evs : list event)
+         (devs : list Lower.devent) (eis : list instr),
+  declare new_report reports scope_new = Ok sc1 ->
+  declare new_control controls sc1 = Ok sc0 ->
+  compile_events evs sc0 (N.of_nat (length (def_instrs (sc_named sc0)))) = Ok (devs, eis, scF) ->
+  wt_prog {| sp_decls := map fst (decls_of_scope sc0); sp_events := map sev evs |}
+          (map snd (decls_of_scope sc0)) = true ->
+  clobbers_prog {| sp_decls := map fst (decls_of_scope sc0); sp_events := map sev evs |} = false ->
+  legacy_inf_prog {| sp_decls := map fst (decls_of_scope sc0); sp_events := map sev evs |} = false ->
+  sinv scF.
+Proof. exact sinv_scF. Qed.
+Print Assumptions C12_compiled_scopes_satisfy_the_invariant.
+
+Example C12_initial_scope_satisfies_the_invariant : sinv scope_new.
+Proof. exact sinv_new. Qed.
+
 (* translator obligations (lib/gen_statespace.py reads the structs, statics and mutable bindings of the
    modelled code on every run): the code has the state the model represents and no other *)
 From Portus Require Import StateTie.
